@@ -170,6 +170,22 @@ def hand_cases():
                           "d0.mro": "struct T1(\n    int a,\n)\n\nstage D0(\n    in  T1 x,\n    out int y,\n    src py \"d\",\n)\n",
                           "d1.mro": "struct T1(\n    int a,\n)\n\nstage D1(\n    in  T1 x,\n    out int y,\n    src py \"d\",\n)\n",
                           "sub/d2.mro": "struct T1(\n    int a,\n)\n\nstage D2(\n    in  T1 x,\n    out int y,\n    src py \"d\",\n)\n"}})
+    # ... missing files named after the file that is repaired (they sort last, among themselves by name)
+    stg = lambda n: "stage %s(\n    in  int x,\n    out int y,\n    src py \"s\",\n)\n" % n
+    out.append({"id": "fixinc_named", "top": "proj.mro",
+                "files": dict({"proj.mro": "pipeline TOP(\n    in  int x,\n    out int y,\n)\n{\n" +
+                               "".join("    call N%d(\n        x = self.x,\n    )\n\n" % i for i in (3, 0, 5, 1, 4, 2)) +
+                               "    return (\n        y = N0.y,\n    )\n}\n"},
+                              **{("_proj_%s_stages.mro" % "fbdace"[i] if i < 5 else "other.mro"): stg("N%d" % i) for i in range(6)})})
+    # one input bound to several outputs of the same stage, in a literal array, a typed-map literal
+    # and under a disabling condition (the edges of the rendered graph list the outputs)
+    outs7 = "".join("    out int o%d,\n" % i for i in range(7))
+    out.append(prog("edges_many_outputs",
+                    "stage PR(\n    in  int x,\n" + outs7 + "    out bool off,\n    src py \"p\",\n)\n\nstage CO(\n    in  int[] vs,\n    in  map<int> m,\n    out int y,\n    src py \"c\",\n)\n\n"
+                    "pipeline TOP(\n    in  int x,\n    out int y,\n    out int[] all,\n)\n{\n    call PR(\n        x = self.x,\n    )\n\n"
+                    "    call CO(\n        vs = [" + ", ".join("PR.o%d" % i for i in (4, 1, 6, 0, 3, 5, 2)) + "],\n        m  = {" +
+                    ", ".join("\"k%d\": PR.o%d" % (i, i) for i in (2, 5, 3, 0, 6, 1, 4)) + "},\n    ) using (\n        disabled = PR.off,\n    )\n\n"
+                    "    return (\n        y   = CO.y,\n        all = [" + ", ".join("PR.o%d" % i for i in (6, 2, 5, 0, 4, 1, 3)) + "],\n    )\n}\n\ncall TOP(\n    x = 1,\n)\n"))
     # strings the parser interns (stage code, output file names, resource `special`), first with a
     # literal backslash spelled \\\\ then - in the next source, for a parser that has kept the first -
     # with the escape that the first one's text spells
